@@ -289,4 +289,46 @@ def generate(seed, tier, family=None):
             elif fam == "smallread": out.append(smallread_scenario(rng, sid))
             elif fam == "reuse": out.append(reuse_scenario(rng, sid))
             else: out.append(both_scenario(rng, sid))
+    if not family:
+        out += generate_moved(seed + 17, tier, 40 if tier == "quick" else 1200)
     return out
+
+
+# ---------------------------------------------------------------------------------- moved
+def moved_scenario(rng, sid, pcap=False):
+    """a connected socket is move-constructed into a new object in mid-stream, at a moment it has no
+    operation outstanding (after a write completed; the writer posts no reads), once or twice, on the
+    connecting or the accepting side, and goes on sending: the connection (sequence of bytes, byte
+    counters, MSS, registry entry, retransmissions of what is still in flight) lives on in the new
+    object. The peer reads everything."""
+    cfg = fixed_cfg(rng, drop_cli=(rng.choice([None, None, {2}, {1, 3}])), mtu=rng.choice([None, None, 500, 800, 1400]),
+                    slow=rng.random() < 0.3, nat=rng.random() < 0.3)
+    if pcap: cfg.lines.append("pcap on")
+    P = Prog(rng)
+    c = connect(rng, P, cfg, 8000, "n0", "n1", style=rng.choice(["accept", "accept_ep"]))
+    mover_is_client = rng.random() < 0.6
+    w, wctx = (c["cs"], c["hcon"]) if mover_is_client else (c["ss"], c["hacc"])
+    r, rctx = (c["ss"], c["hacc"]) if mover_is_client else (c["cs"], c["hcon"])
+    stream = 31
+    ctx = wctx
+    for k in range(rng.choice([2, 3, 4])):
+        h = P.h()
+        P.do(ctx, "%s.write h%d stream=%d len=%d bufs=%d" % (w, h, stream, rng.choice([1, 300, 1000, 1475, 2950, 4000]), rng.choice([1, 1, 2])))
+        ctx = "h%d" % h
+        if rng.random() < 0.75:
+            n = P.sock(); P.do(ctx, "%s.move %s" % (w, n))
+            if rng.random() < 0.4: P.do(ctx, "%s.destroy" % w)
+            w = n
+            P.do(ctx, "%s.local" % w); P.do(ctx, "%s.remote" % w)
+    if rng.random() < 0.6: P.do(ctx, "%s.close" % w)
+    # the other side answers a little and reads everything
+    if rng.random() < 0.5:
+        h = P.h(); P.do(rctx, "%s.write h%d stream=32 len=%d bufs=1" % (r, h, rng.choice([10, 700, 1475])))
+    reader(rng, P, r, rctx, rng.choice([8, 12, 20]), [500, 1475, 4096, 20000], nb_p=0.1)
+    return finish(sid, cfg, P)
+
+
+def generate_moved(seed, tier, n=None, pcap=False):
+    rng = random.Random(seed * 49979687 + 13)
+    n = n or (40 if tier == "quick" else 1500)
+    return [moved_scenario(rng, "mv%d" % i, pcap) for i in range(n)]
